@@ -34,6 +34,7 @@ unsigned long __CPROVER_uninterpreted_divr (unsigned long, unsigned long, unsign
     __CPROVER_assume ((w1) <= ~(unsigned long) 1);                                  \
     __CPROVER_assume (__vu > 1 || ((w1) == 0 && (w0) == (__vu ? __vv : 0)));  \
     __CPROVER_assume (__vv > 1 || ((w1) == 0 && (w0) == (__vv ? __vu : 0)));  \
+    __CPROVER_assume (__vu == 0 || __vv == 0 || (w1) != 0 || (w0) != 0);  /* no zero divisors */ \
   } while (0)
 
 #define udiv_qrnnd(q, r, n1, n0, dx)                                          \
